@@ -17,8 +17,8 @@ ASSUMPTIONS = ['expanded element names are unique per content model and wildcard
                'Python re on the expanded content model agrees with the derivative matcher or the case is dropped (oracle_disagreements)',
                'only the built-in simple types string/int/boolean/token/NMTOKEN/decimal/date with clear-cut literals are used; datatypes proper belong to C09',
                'error *codes* are only matched coarsely (class of codes per planted rule)']
-BUDGET = {'quick': 10, 'thorough': 70}
-WALLCAP = {'quick': 420, 'thorough': 3000}
+BUDGET = {'quick': 16, 'thorough': 110}
+WALLCAP = {'quick': 500, 'thorough': 3000}
 
 # ---- error code tables (parsed from the tree that is being checked) -----------------------------------------
 def _codes(header, start):
@@ -65,6 +65,38 @@ CLASS = {
 
 FEATSETS = [frozenset(), frozenset(), frozenset(['groups']), frozenset(['subst', 'groups']), frozenset(['wild']), frozenset(['wild', 'subst', 'groups', 'anyattr']),
             frozenset(['nil', 'valueconstraint']), frozenset(['wild', 'subst', 'groups', 'nil', 'valueconstraint', 'anyattr'])]
+
+# ---- known findings: every exclusion is switchable (VERIF_C08_EXCLUSIONS_OFF=id,id,... or 'all') ------------------------------
+SG_CACHED_NONS = 'C08-sg-cached-nonamespace-root'
+NIL_NUMERIC = 'C08-xsi-nil-numeric-boolean'
+ATTR_FIXED_LEX = 'C08-attr-fixed-lexical-compare'
+NIL_DEFAULT = 'C08-nil-with-default'
+NIL_FALSE_LEAK = 'C08-nil-false-leaks-to-next-element'
+ATTR_DUP_FATAL = 'C08-qualified-attr-same-local-fatal'
+ELEM_FIXED_FATAL = 'C08-elem-fixed-invalid-literal-fatal'
+XSI_IN_SKIP = 'C08-xsi-attrs-checked-in-skipped-content'
+SG_PSVI_NULL = 'C08-sg-psvi-null-xsmodel'
+PSVI_LOCKED = 'C08-psvi-lockedpool-complextype'
+ALL_EXCLUSIONS = [SG_CACHED_NONS, NIL_NUMERIC, ATTR_FIXED_LEX, NIL_DEFAULT, NIL_FALSE_LEAK, ATTR_DUP_FATAL, ELEM_FIXED_FATAL, XSI_IN_SKIP, SG_PSVI_NULL, PSVI_LOCKED]
+_off = os.environ.get('VERIF_C08_EXCLUSIONS_OFF', '')
+ACTIVE_EXCLUSIONS = set() if _off == 'all' else set(ALL_EXCLUSIONS) - set(x for x in _off.split(',') if x)
+def EX(fid): return fid in ACTIVE_EXCLUSIONS
+# oracle flag (input class met while assessing an instance) -> finding
+FLAG2FID = {'nil-numeric': NIL_NUMERIC, 'nil-with-default': NIL_DEFAULT, 'nil-false-on-nillable': NIL_FALSE_LEAK, 'same-local-attrs': ATTR_DUP_FATAL,
+            'fixed-elem-invalid-literal': ELEM_FIXED_FATAL, 'xsi-in-skip': XSI_IN_SKIP}
+
+def triage_flags(orc, st_):
+    """-> ('skip', None) | ('run', finding-id or None) for the instance just assessed by orc"""
+    fid = None
+    for flag, f in FLAG2FID.items():
+        if flag in orc.flags:
+            if EX(f): st_.excluded_known[f] += 1; return 'skip', None
+            fid = f
+    amb = [f for f in orc.flags if f.startswith('ambiguous:')]
+    if amb:          # readings differ (R2): outside the domain, dropped and counted
+        for f in amb: st_.labels['dropped:' + f] += 1
+        return 'skip', None
+    return 'run', fid
 
 # ---- executing ---------------------------------------------------------------------------------------------
 def feat_string(cfg):
@@ -113,6 +145,23 @@ def verdict(lines, expect_valid, tags):
         if allowed and not any((l[1] == 'V' and int(l[2]) in allowed) or (dt and l[1] == 'E') for l in verrs):
             return 'violation class %s: none of the reported codes %s is in the expected class %s' % (list(tags)[0], names(), sorted(CLASS[list(tags)[0]]))
     return None
+
+def known_crash(stderr):
+    """sanitizer-stack signature of a known memory-safety finding, or None"""
+    if "member call on null pointer of type 'xercesc_4_0::XSModel'" in stderr and 'SGXMLScanner' in stderr: return SG_PSVI_NULL
+    return None
+
+class KnownCrash(Exception):
+    def __init__(self, fid): Exception.__init__(self, fid); self.fid = fid
+
+def guarded(fn, *a, **kw):
+    """run an executor request; a death with a known signature becomes KnownCrash (counted + skipped by the caller)"""
+    try:
+        return fn(*a, **kw)
+    except xv.ExecutorDied as e:
+        fid = known_crash(e.stderr)
+        if fid: raise KnownCrash(fid)
+        raise
 
 def load_problem(load_lines, expect_errors):
     errs = [l for l in load_lines if l[0] in ('ERR', 'EXC')]
@@ -194,7 +243,7 @@ def cm_case(draw, tier):
                 elif kind == 'child-nil':
                     # xsi:nil="1"/"0" are excluded (known finding C08-xsi-nil-numeric-boolean); the draw is kept so the exclusion is counted
                     mc.xsi_nil = draw(st.sampled_from(['true', 'false', '1', '0']))
-                    if mc.xsi_nil in ('1', '0'): mc.xsi_nil = {'1': 'true', '0': 'false'}[mc.xsi_nil]; kind = 'child-nil(excl-numeric)'
+                    if mc.xsi_nil in ('1', '0') and EX(NIL_NUMERIC): mc.xsi_nil = {'1': 'true', '0': 'false'}[mc.xsi_nil]; kind = 'child-nil(excl-numeric)'
                     if mc.xsi_nil == 'true': mc.children = []
                 elif kind == 'child-niltrue-content': mc.xsi_nil = 'true'; mc.children = [draw(st.sampled_from(['7', ' ']))]
                 elif kind == 'child-dropattr': mc.attrs = {}
@@ -233,8 +282,11 @@ def build_cm_docs(s, cfg, foreign, extra, tier):
                      ({'int': [' +12 ', '012', '-7'], 'decimal': ['1.5', '01.50', '7.0'], 'boolean': ['1', 'true', '0', 'false']}.get(a.tname, [])):
                 if v is None: continue
                 if a.fixed is not None and v != a.fixed and xm.simple_valid(a.tname, v) and xm.simple_value(a.tname, v) == xm.simple_value(a.tname, a.fixed):
-                    excl[ATTR_FIXED_LEX] = excl.get(ATTR_FIXED_LEX, 0) + 1      # known finding: attribute fixed values are compared lexically
-                    continue
+                    if EX(ATTR_FIXED_LEX):
+                        excl[ATTR_FIXED_LEX] = excl.get(ATTR_FIXED_LEX, 0) + 1      # known finding: attribute fixed values are compared lexically
+                        continue
+                    at = dict(base_attrs); at[a.key()] = v
+                    docs.append(('attrval(fixed-lex)', xm.Node(root.ns, root.name, at, [kid(k) for k in seq0]))); continue
                 at = dict(base_attrs); at[a.key()] = v
                 docs.append(('attrval', xm.Node(root.ns, root.name, at, [kid(k) for k in seq0])))
     for kind, n in extra:
@@ -244,16 +296,15 @@ def build_cm_docs(s, cfg, foreign, extra, tier):
         docs.append((kind, n))
     return orc, docs, L, dis, wit is not None, excl
 
-def case_dict(lane, s_texts, load, cfg, doc, expect_valid, tags, note):
-    return {'lane': lane, 'schemas': s_texts, 'load': load, 'cfg': cfg, 'doc': doc, 'expect_valid': expect_valid, 'tags': sorted(tags), 'note': note}
+def case_dict(lane, s_texts, load, cfg, doc, expect_valid, tags, note, fid=None):
+    d = {'lane': lane, 'schemas': s_texts, 'load': load, 'cfg': cfg, 'doc': doc, 'expect_valid': expect_valid, 'tags': sorted(tags), 'note': note}
+    if fid: d['finding'] = fid          # the instance belongs to an input class of a known finding whose exclusion is switched off
+    return d
 
 def hint_for(s):
     if s.tns: return ('schemaLocation', '%s %s' % (s.tns, s.sysid))
     return ('noNamespaceSchemaLocation', s.sysid)
 
-SG_CACHED_NONS = 'C08-sg-cached-nonamespace-root'
-NIL_NUMERIC = 'C08-xsi-nil-numeric-boolean'
-ATTR_FIXED_LEX = 'C08-attr-fixed-lexical-compare'
 
 def check_cm(ctx, ex, c, tier):
     s, cfg, foreign, extra = c
@@ -262,9 +313,12 @@ def check_cm(ctx, ex, c, tier):
     load = [s.sysid]
     root = s.elements[0]
     # known finding: SGXMLScanner never looks up a pre-loaded no-namespace grammar for the root element
+    case_fid = None
     if cfg['scanner'] == 'SG' and cfg['route'] == 'cached' and root.ns == '':
-        st_.excluded_known[SG_CACHED_NONS] += 1
-        cfg = dict(cfg); cfg['route'] = 'hint'
+        if EX(SG_CACHED_NONS):
+            st_.excluded_known[SG_CACHED_NONS] += 1
+            cfg = dict(cfg); cfg['route'] = 'hint'
+        else: case_fid = SG_CACHED_NONS
     orc, docs, L, dis, have_wit, excl = build_cm_docs(s, cfg, foreign, extra, tier)
     st_.oracle_disagreements += dis
     for k, v in excl.items(): st_.excluded_known[k] += v
@@ -278,26 +332,22 @@ def check_cm(ctx, ex, c, tier):
         raise PropertyFailure({'lane': 'load', 'schemas': texts, 'load': load, 'cfg': fc, 'expect_load_errors': False, 'note': root.typ.content.show() if isinstance(root.typ.content, xm.Particle) else ''}, prob)
     model_nt = nontrivial_model(root.typ.content) or has_subst(s)
     show = root.typ.content.show() if isinstance(root.typ.content, xm.Particle) else str(root.typ.content)
-    rendered = []
+    rendered = []; fids = []
     for kind, n in docs:
         if kind.endswith('(excl-numeric)'): st_.excluded_known[NIL_NUMERIC] += 1
         tags = orc.assess_root(n)
-        if 'nil-with-default' in orc.flags: st_.excluded_known[NIL_DEFAULT] += 1; continue
-        if 'nil-false-on-nillable' in orc.flags: st_.excluded_known[NIL_FALSE_LEAK] += 1; continue
-        if 'same-local-attrs' in orc.flags: st_.excluded_known[ATTR_DUP_FATAL] += 1; continue
-        if 'fixed-elem-invalid-literal' in orc.flags: st_.excluded_known[ELEM_FIXED_FATAL] += 1; continue
-        if 'xsi-in-skip' in orc.flags: st_.excluded_known[XSI_IN_SKIP] += 1; continue
-        amb = [f for f in orc.flags if f.startswith('ambiguous:')]
-        if amb:          # readings differ (R2): outside the domain, dropped and counted
-            for f in amb: st_.labels['dropped:' + f] += 1
-            continue
+        act, fid = triage_flags(orc, st_)
+        if act == 'skip': continue
+        if kind == 'attrval(fixed-lex)': fid = ATTR_FIXED_LEX
+        fids.append(fid or case_fid)
         rendered.append((kind, xm.render_instance(n, hint=hint_for(s) if cfg['route'] == 'hint' else None), tags, n))
+    rendered = [r + (f,) for r, f in zip(rendered, fids)]
     if cfg['route'] == 'hint':
         # slow route (schema re-read per document): a deterministic sample
         step = max(1, len(rendered) // (30 if tier == 'quick' else 60))
         rendered = rendered[::step]
         results = []
-        for kind, doc, tags, n in rendered: results.append(run_hint(ex, texts, cfg, doc))
+        for kind, doc, tags, n, fid in rendered: results.append(run_hint(ex, texts, cfg, doc))
     else:
         lload, results = run_docs(ex, texts, load, cfg, [r[1] for r in rendered], reuse=(64 if cfg.get('reuse', True) else 0))
         prob = load_problem(lload, False)
@@ -310,7 +360,7 @@ def check_cm(ctx, ex, c, tier):
     if root.typ.mixed: labels0.append('model:mixed')
     if model_nt: labels0.append('model:numeric-range-or-all-or-wild')
     first = True
-    for (kind, doc, tags, n), lines in zip(rendered, results):
+    for (kind, doc, tags, n, fid), lines in zip(rendered, results):
         nt = model_nt or (kind in ('attrs', 'attrval') and any(a.use != 'optional' or a.fixed is not None for a in root.typ.attrs)) or \
              any(c.xsi_nil is not None for c in n.elems())
         st_.note(xv.sha([texts, doc, cfg]), nt, (labels0 if first else []) + ['doc:' + kind, 'verdict:' + ('valid' if not tags else 'invalid')] + ['tag:' + t for t in tags])
@@ -325,7 +375,7 @@ def check_cm(ctx, ex, c, tier):
                 continue
             bad = bad2
         if bad:
-            raise PropertyFailure(case_dict('cm', texts, load, cfg, doc, not tags, tags, 'model %s; doc kind %s' % (show, kind)), bad)
+            raise PropertyFailure(case_dict('cm', texts, load, cfg, doc, not tags, tags, 'model %s; doc kind %s' % (show, kind), fid), bad)
     st_.sample({'model': show, 'cfg': cfg, 'docs': len(rendered), 'enum_len': L, 'schema': texts[s.sysid][:600]})
 
 # ---- deep lane: derivation, xsi:type, xsi:nil, block/abstract, imports, value constraints, reported information -------------
@@ -345,18 +395,14 @@ def deep_case(draw, tier):
             docs.append(('mut-' + kind, m))
     return s, cfg, docs
 
-PSVI_LOCKED = 'C08-psvi-lockedpool-complextype'
-SG_PSVI_NULL = 'C08-sg-psvi-null-xsmodel'
-NIL_DEFAULT = 'C08-nil-with-default'
-NIL_FALSE_LEAK = 'C08-nil-false-leaks-to-next-element'
-ATTR_DUP_FATAL = 'C08-qualified-attr-same-local-fatal'
-ELEM_FIXED_FATAL = 'C08-elem-fixed-invalid-literal-fatal'
-XSI_IN_SKIP = 'C08-xsi-attrs-checked-in-skipped-content'
 
 def info_case(s, texts, cfg, node, orc):
-    use_hint = cfg['scanner'] == 'SG' or cfg['route'] == 'hint'
+    use_hint = (cfg['scanner'] == 'SG' and EX(SG_PSVI_NULL)) or cfg['route'] == 'hint'
     exp = [[list(k), tn, ({'{%s}%s' % a: v for a, v in da.items()} if da is not None else None), dt] for k, tn, da, dt in xm.expected_info(orc, node)]
-    return {'lane': 'info', 'schemas': texts, 'load': [s.sysid], 'cfg': cfg, 'use_hint': use_hint,
+    fid = None
+    if cfg['scanner'] == 'SG' and not use_hint: fid = SG_PSVI_NULL
+    elif not EX(PSVI_LOCKED) and not use_hint: fid = PSVI_LOCKED
+    return {'lane': 'info', 'schemas': texts, 'load': [s.sysid], 'cfg': cfg, 'use_hint': use_hint, 'lock': 0 if EX(PSVI_LOCKED) else 1, 'finding': fid,
             'doc': xm.render_instance(node, hint=hint_for(s) if use_hint else None), 'expect_info': exp}
 
 def run_info(ex, case):
@@ -370,7 +416,7 @@ def run_info(ex, case):
         res = [[l.split('\t') for l in ex.request(req, timeout=120).split('\n') if l and not l.startswith('#')]]
     else:
         # pool left unlocked: with a locked pool element type definitions of complex types are not reported (known finding PSVI_LOCKED)
-        req = {'kind': 'xsd', 'api': 'dom', 'feat': feat_string(c2), 'load': ','.join(case['load']), 'n': 1, 'mode': 'ced', 'lock': 0, 'doc0': case['doc'].encode('utf-8')}
+        req = {'kind': 'xsd', 'api': 'dom', 'feat': feat_string(c2), 'load': ','.join(case['load']), 'n': 1, 'mode': 'ced', 'lock': case.get('lock', 0), 'doc0': case['doc'].encode('utf-8')}
         for k, v in texts.items(): req['ent:' + k] = v.encode('utf-8')
         _, res = parse_xsd_resp(ex.request(req, timeout=120))
     exp = case['expect_info']
@@ -400,9 +446,12 @@ def check_deep(ctx, ex, c, tier):
     st_ = ctx.stats
     texts = xm.render_schema(s); load = [s.sysid]
     rootd = [e for e in s.elements if e.name == 'r'][0]
+    case_fid = None
     if cfg['scanner'] == 'SG' and cfg['route'] == 'cached' and rootd.ns == '':
-        st_.excluded_known[SG_CACHED_NONS] += 1
-        cfg = dict(cfg); cfg['route'] = 'hint'
+        if EX(SG_CACHED_NONS):
+            st_.excluded_known[SG_CACHED_NONS] += 1
+            cfg = dict(cfg); cfg['route'] = 'hint'
+        else: case_fid = SG_CACHED_NONS
     orc = xm.Oracle(s)
     fc = dict(cfg); fc['fullcheck'] = 1; fc['scanner'] = 'IG' if cfg['route'] == 'hint' else cfg['scanner']
     lload, _ = run_docs(ex, texts, load, fc, [])
@@ -410,36 +459,35 @@ def check_deep(ctx, ex, c, tier):
     prob = load_problem(lload, False)
     if prob: raise PropertyFailure({'lane': 'load', 'schemas': texts, 'load': load, 'cfg': fc, 'expect_load_errors': False, 'note': 'deep'}, prob)
     rendered = []
+    fids = []
     for kind, n in docs:
         tags = orc.assess_root(n)
-        if 'nil-with-default' in orc.flags: st_.excluded_known[NIL_DEFAULT] += 1; continue
-        if 'nil-false-on-nillable' in orc.flags: st_.excluded_known[NIL_FALSE_LEAK] += 1; continue
-        if 'same-local-attrs' in orc.flags: st_.excluded_known[ATTR_DUP_FATAL] += 1; continue
-        if 'fixed-elem-invalid-literal' in orc.flags: st_.excluded_known[ELEM_FIXED_FATAL] += 1; continue
-        if 'xsi-in-skip' in orc.flags: st_.excluded_known[XSI_IN_SKIP] += 1; continue
-        amb = [f for f in orc.flags if f.startswith('ambiguous:')]
-        if amb:          # readings differ (R2): outside the domain, dropped and counted
-            for f in amb: st_.labels['dropped:' + f] += 1
-            continue
+        act, fid = triage_flags(orc, st_)
+        if act == 'skip': continue
+        fids.append(fid or case_fid)
         rendered.append((kind, xm.render_instance(n, hint=hint_for(s) if cfg['route'] == 'hint' else None), tags, n))
+    rendered = [r + (f,) for r, f in zip(rendered, fids)]
     if cfg['route'] == 'hint':
         results = [run_hint(ex, texts, cfg, d[1]) for d in rendered]
     else:
         _, results = run_docs(ex, texts, load, cfg, [r[1] for r in rendered])
     labels0 = ['lane:deep', 'api:' + cfg['api'], 'scanner:' + cfg['scanner'], 'route:' + cfg['route'], 'fullcheck:%d' % cfg['fullcheck'], 'imports:%d' % len(s.imports)]
     first = True; ninfo = 0
-    for (kind, doc, tags, n), lines in zip(rendered, results):
+    for (kind, doc, tags, n, fid), lines in zip(rendered, results):
         uses = any(x.xsi_type is not None or x.xsi_nil is not None for x in xm.all_nodes(n))
         st_.note(xv.sha([texts, doc, cfg]), uses or bool(s.imports), (labels0 if first else []) + ['doc:' + kind, 'verdict:' + ('valid' if not tags else 'invalid')] + ['tag:' + t for t in tags] +
                  (['uses:xsi'] if uses else []))
         first = False
         bad = verdict(lines, not tags, tags)
-        if bad: raise PropertyFailure(case_dict('deep', texts, load, cfg, doc, not tags, tags, 'doc kind %s' % kind), bad)
+        if bad: raise PropertyFailure(case_dict('deep', texts, load, cfg, doc, not tags, tags, 'doc kind %s' % kind, fid), bad)
         if not tags and ninfo < 4:
             ninfo += 1
-            if cfg['scanner'] == 'SG' and cfg['route'] != 'hint': st_.excluded_known[SG_PSVI_NULL] += 1
+            if cfg['scanner'] == 'SG' and cfg['route'] != 'hint' and EX(SG_PSVI_NULL): st_.excluded_known[SG_PSVI_NULL] += 1
             ic = info_case(s, texts, cfg, n, orc)
-            bad = run_info(ex, ic)
+            try:
+                bad = run_info(ex, ic)
+            except xv.ExecutorDied as e:
+                bad = 'executor died rc=%s\n%s' % (e.rc, e.stderr[-3000:])
             st_.note(xv.sha([texts, ic['doc'], 'info']), True, ['lane:info'])
             if bad: raise PropertyFailure(ic, bad)
     st_.sample({'lane': 'deep', 'cfg': cfg, 'docs': len(rendered), 'schema': texts[s.sysid][:500]})
@@ -503,12 +551,7 @@ def run_case(case, ex):
         return False, 'executor died rc=%s\n%s' % (e.rc, e.stderr[-3000:])
 
 def replay(case, ctx):
-    if case.get('lane') == 'died': return True, 'executor-death cases carry no single document; see the stderr in the finding file'
     return run_case(case, ctx.executor('xv_xsd', extra_env=XENV))
-
-def classify(case, detail):
-    cfg = case.get('cfg', {})
-    return None
 
 XENV = {'ASAN_OPTIONS': xv.ASAN_ENV['ASAN_OPTIONS'] + ':quarantine_size_mb=16'}
 
@@ -523,10 +566,34 @@ def worker(ctx):
                 if os.environ.get('VERIF_STOP_AFTER_FAIL'): ctx.deadline = 0      # sensitivity runs: first detection is enough, skip shrinking
                 raise
             except xv.ExecutorDied as e:
-                s = c[0]
-                raise PropertyFailure({'lane': 'died', 'in_lane': name, 'schemas': xm.render_schema(s), 'cfg': c[1] if isinstance(c[1], dict) else {}},
+                fid = known_crash(e.stderr)
+                if fid:
+                    ctx.stats.excluded_known[fid] += 1; return
+                s = c[0]; cfg = dict(c[1]) if isinstance(c[1], dict) else {'api': 'sax2', 'scanner': c[2], 'fullcheck': 1, 'route': 'cached'}
+                cfg['fullcheck'] = 1
+                raise PropertyFailure({'lane': 'load', 'died_in': name, 'schemas': xm.render_schema(s), 'load': [s.sysid], 'cfg': cfg, 'expect_load_errors': False},
                                       'executor died rc=%s\n%s' % (e.rc, e.stderr[-3000:]))
         hyp_run(ctx, strat, prop, max(4, ctx.budget * mult[name]), batches=4 if name != 'bad' else 2, seed_salt=101 * k)
+
+# ---- known findings (genuine defects found on the unchanged tree; the input classes are excluded by construction above) ------
+KNOWN_DIR = os.path.join(os.path.dirname(os.path.dirname(os.path.dirname(os.path.abspath(__file__)))), 'regress-known', ID)
+
+def known_witnesses():
+    """(finding-id, case) for every stored witness of an OPEN finding (regress-known/C08/<id>.json)"""
+    import json
+    out = []
+    for fid in ALL_EXCLUSIONS:
+        path = os.path.join(KNOWN_DIR, fid + '.json')
+        if os.path.exists(path):
+            obj = json.load(open(path)); out.append((fid, obj.get('case', obj)))
+    return out
+
+def classify(case, detail):
+    """a confirmed failure belongs to a known finding iff the failing instance is in that finding's input class (recorded by the generator
+    in case['finding'], see triage_flags / FLAG2FID) or the sanitizer stack carries its signature"""
+    fid = case.get('finding')
+    if fid in ALL_EXCLUSIONS: return fid
+    return known_crash(detail or '')
 
 def dev_lanes(ctx, ex):
     """(name, strategy, property function) per lane -- used by the development runner and by worker()"""
